@@ -427,6 +427,9 @@ func (m commitStore) IsMonotonic() bool { return true }
 func (m commitStore) StageCommitIndex(idx uint64) error {
 	m.inc.checkAlive()
 	m.staged = idx
+	if m.w.cfg.CommitEager {
+		m.d.commit = idx
+	}
 	return nil
 }
 func (m commitStore) GetCommitIndex() (uint64, error) {
